@@ -26,6 +26,7 @@ Where each clause of the statement is decided (all in check_triple unless noted)
   shapes incl. n = m, under/over-determined, K rank-deficient / zero: generator classes.
 """
 import traceback
+import warnings
 
 import numpy as np
 
@@ -249,6 +250,9 @@ def gen_params(seed, shard, i):
 # --------------------------------------------------------------------------
 # the monitor
 # --------------------------------------------------------------------------
+_KW = {"n": 0}
+
+
 def call(rec, case, name, fn, *args):
     rec.ev()
     before = [a.copy() if isinstance(a, np.ndarray) else None for a in args]
@@ -258,6 +262,22 @@ def call(rec, case, name, fn, *args):
             if b is not None and not np.array_equal(a, b, equal_nan=True):
                 rec.violation("input-mutated", case, {"function": name, "argument": k})
                 return False, None
+        _KW["n"] += 1
+        if _KW["n"] % 8 == 0 and " " not in name:
+            # calling convention: the same call with every argument given by its documented name, in the
+            # opposite order
+            import inspect
+            try:
+                names = list(inspect.signature(fn).parameters)[:len(args)]
+            except (TypeError, ValueError):
+                names = []
+            if len(names) == len(args):
+                rec.count("keywords.calls")
+                out2 = fn(**dict(reversed(list(zip(names, args)))))
+                a1, a2 = np.asarray(out, dtype=float), np.asarray(out2, dtype=float)
+                if a1.shape != a2.shape or not np.allclose(a1, a2, rtol=1e-9, atol=1e-300, equal_nan=True):
+                    rec.violation("keyword-call-differs", case, {"function": name, "keywords": names[::-1]})
+                    return False, None
         return True, out
     except Exception as exc:
         key = "oem-contract-" + name if "ViolationError" in type(exc).__name__ \
@@ -680,10 +700,41 @@ def check_intdtype(rec, seed):
     rec.nontriv(["intdtype", n, m, which], seed)
 
 
+def invalid_first(rec):
+    """Process history: the first retrievals of the process are given matrices outside the domain (an
+    indefinite / singular / NaN covariance, sizes that do not fit). Whatever they answer or raise is not
+    judged; the valid cases that follow are."""
+    from typhon.retrieval.oem import common, error
+    rng = np.random.default_rng(2)
+    K = rng.normal(size=(4, 3))
+    bad = [(K, np.diag([1.0, -1.0, 2.0]), np.eye(4)), (K, np.diag([1.0, -1e-3, 2.0]), np.eye(4)),
+           (K, -1e-3 * np.eye(3), np.eye(4)), (K, np.zeros((3, 3)), np.eye(4)),
+           (K, np.eye(3), np.diag([1.0, 1.0, -1e-3, 1.0])), (K, np.eye(3), np.zeros((4, 4))),
+           (K, np.eye(3), -np.eye(4)), (K, np.full((3, 3), np.nan), np.eye(4)),
+           (K, np.eye(2), np.eye(4)), (K, np.array([[1.0, 2.0, 0], [2.0, 1.0, 0], [0, 0, 1.0]]), np.eye(4))]
+    _installed["off"] = True
+    try:
+        with warnings.catch_warnings():
+            warnings.simplefilter("ignore")
+            for K_, S_a, S_y in bad:
+                for fn, extra in ((common.error_covariance_matrix, ()), (common.retrieval_gain_matrix, ()),
+                                  (common.averaging_kernel_matrix, ()), (error.retrieval_noise, (np.ones(4),))):
+                    try:
+                        with np.errstate(all="ignore"):
+                            fn(K_, S_a, S_y, *extra)
+                    except Exception:
+                        pass
+    finally:
+        _installed["off"] = False
+    rec.count("history.invalid_inputs_first")
+
+
 def run_shard(spec, rec):
     install_contracts(rec)
     if spec["shard"] % 2 == 1:
         float32_first(rec)
+    if spec["shard"] % 4 >= 2:
+        invalid_first(rec)
     if spec["shard"] == 0:
         for g in FIXED:
             check_triple(rec, g)
